@@ -5,6 +5,8 @@ From Coq Require Import List NArith ZArith Bool Lia.
 From Coq.Strings Require Import Byte.
 Require Import GV.Base.Res GV.Base.Byt GV.Base.Ints.
 Require Import GV.Spec.LineAdvSpec GV.Model.LineWr GV.Proofs.LineWrProofs GV.Proofs.LineWrSeqProofs.
+Require GV.Spec.LineSpec GV.Model.LineRd GV.Proofs.LineRdRefine GV.Proofs.LineRtBytes GV.Proofs.LineRtRows
+        GV.Proofs.LineRtScript GV.Proofs.LineRoundtrip GV.Proofs.LineRoundtrip5.
 Import ListNotations.
 
 (* ---------------------------------------------------------------------------------------------
@@ -228,6 +230,147 @@ Theorem op_advance_overflow_refuted :
   op_advance true lenc_vliw (prow 9223372036854775808 0 7) (prow 0 0 7) = Panic /\
   op_advance false lenc_vliw (prow 9223372036854775808 0 7) (prow 0 0 7) = Ok 0%N.
 Proof. split; vm_compute; reflexivity. Qed.
+
+(* ---------------------------------------------------------------------------------------------
+   7. program_roundtrip against the line READER model of property C04 (Model/LineRd.v, Spec/LineSpec.v).
+   Vocabulary (module paths spelled out; `tr` translates writer instructions into C04's `insn`, `r2s`
+   the registers of Spec/LineAdvSpec.v into C04's `sregs`, `rep` is C04's abstraction of a reader row):
+     hdr_matches e l h    the header carries the writer's parameters (opcode_base 13, gimli's
+                          standard_opcode_lengths, the address size, version, line encoding)
+     enc_params_ok e l    address size 1/2/4/8, byte-sized parameters
+     script_enc_ok ..     addresses fit the address size, set_address does not go backwards and stays
+                          below the tombstone values (documented / reader convention), u64 row fields
+   --------------------------------------------------------------------------------------------- *)
+
+(* 7a. every instruction LineInstruction::write emits is decoded by LineInstruction::parse to its translation
+       (uses C04's insn_roundtrip through the byte equality insn_write = enc_insn o tr) *)
+Theorem insn_bytes_roundtrip : forall dbg be e l h i bytes rest,
+  LineRtBytes.hdr_matches e l h -> LineRtBytes.enc_params_ok e l -> LineRtBytes.insn_enc_ok e i ->
+  (match i with ISpecial v => (13 <= v)%N | _ => True end) ->
+  insn_write dbg be e i = Ok bytes ->
+  LineRd.parse_insn dbg be h (bytes ++ rest) = Ok (LineRtBytes.tr (e_version e) i, rest).
+Proof. exact LineRtBytes.insn_bytes_roundtrip. Qed.
+
+(* 7b. rows, all versions: for ANY header that carries the writer's parameters and whose program bytes are
+       the written instructions, the reader's rows() runs to the end and returns exactly the meaning of
+       the script (uses C04's rows_refine_spec; the emitted program is shown prog_wf for the reader's spec) *)
+Theorem program_rows_readback : forall dbg be e l h wd sd sf info p ops,
+  LineRtBytes.hdr_matches e l h -> LineRtBytes.enc_params_ok e l -> enc_ok l -> (e_version e <= 5)%N ->
+  lp_new dbg e l wd sd sf info = Ok p ->
+  script_ok e l (wrow_initial e l) false ops ->
+  LineRtScript.script_enc_ok h (e_version e) (params_of l) (init_regs (params_of l), 0%N) ops ->
+  exists p' bytes,
+    apply_rops dbg p ops = Ok p' /\
+    insns_write dbg be e (p_insns p') = Ok bytes /\
+    (LineSpec.h_program h = bytes ->
+     exists rs, LineRd.rows_model dbg be h = (rs, LineRd.SEnd) /\
+       map LineRdRefine.rep rs =
+         map LineRtRows.r2s (fst (meaning (e_version e) (params_of l) (init_regs (params_of l), 0%N) ops)) /\
+       Forall (fun r => LineRd.r_tomb r = false) rs).
+Proof. exact LineRoundtrip.program_rows_readback. Qed.
+
+(* 7c. program_roundtrip, FULL for versions 2-4 (both formats, both byte orders, address sizes 1/2/4/8):
+       LineProgram::write of a program with any inline directory/file tables and any admissible script is
+       decoded by LineProgramHeader::parse (C04's header_roundtrip_v2_v4), rows() = meaning of the script,
+       and the directory and file tables (name, directory index, timestamp, size) read back.
+       The side condition on the unit length is the initial-length limit of the format. *)
+Theorem program_roundtrip_v2_v4 : forall dbg be e l p0 ops unit_enc ls ss,
+  p_insns p0 = [] -> p_prev p0 = wrow_initial e l -> p_in_seq p0 = false ->
+  p_enc p0 = e -> p_lenc p0 = l ->
+  (2 <= e_version e <= 4)%N -> ((e_version e < 4)%N -> le_max_ops l = 1%N) ->
+  LineRtBytes.enc_params_ok e l -> enc_ok l -> e_addr_size unit_enc = e_addr_size e ->
+  Forall LineRoundtrip.dir4_ok (tl (p_dirs p0)) -> Forall LineRoundtrip.file4_ok (p_files p0) ->
+  script_ok e l (wrow_initial e l) false ops ->
+  LineRtScript.script_enc_ok (LineRoundtrip.hdr_of_asz (e_addr_size e)) (e_version e) (params_of l)
+                (init_regs (params_of l), 0%N) ops ->
+  (forall p' prog, apply_rops dbg p0 ops = Ok p' -> insns_write dbg be e (p_insns p') = Ok prog ->
+     (LineSpec.len_n (LineSpec.enc_after_len be (LineRoundtrip.raw4 p') prog)
+        < (if e_fmt64 e then two64 else 4294967280))%N) ->
+  exists p' bytes h rs,
+    apply_rops dbg p0 ops = Ok p' /\
+    write dbg be p' unit_enc ls ss = Ok (bytes, ls, ss) /\
+    LineRd.parse_header dbg be (e_addr_size e) bytes = Ok h /\
+    LineRd.rows_model dbg be h = (rs, LineRd.SEnd) /\
+    map LineRdRefine.rep rs =
+      map LineRtRows.r2s (fst (meaning (e_version e) (params_of l) (init_regs (params_of l), 0%N) ops)) /\
+    Forall (fun r => LineRd.r_tomb r = false) rs /\
+    LineSpec.h_dirs h = map LineRoundtrip.lstr_val (tl (p_dirs p0)) /\
+    LineSpec.h_files h = map LineRoundtrip.file4_entry (p_files p0) /\
+    LineRtBytes.hdr_matches e l h.
+Proof. exact LineRoundtrip.program_roundtrip_v2_v4. Qed.
+
+(* the hypotheses are met by a program built with the writer API (new, add_directory, add_file x2) and a
+   script with two sequences, VLIW, a line number 2^64-1 and a set_address inside a VLIW instruction *)
+Example program_roundtrip_hyps_v4 : exists p0, LineRoundtrip.ex_prog = Ok p0 /\
+  p_insns p0 = [] /\ p_prev p0 = wrow_initial LineRoundtrip.ex_enc LineRoundtrip.ex_lenc /\ p_in_seq p0 = false /\
+  p_enc p0 = LineRoundtrip.ex_enc /\ p_lenc p0 = LineRoundtrip.ex_lenc /\
+  Forall LineRoundtrip.dir4_ok (tl (p_dirs p0)) /\ Forall LineRoundtrip.file4_ok (p_files p0) /\
+  length (p_files p0) = 2%nat.
+Proof. exact LineRoundtrip.ex_prog_ok. Qed.
+Example program_roundtrip_hyps_script :
+  LineRtScript.script_enc_ok (LineRoundtrip.hdr_of_asz 8) 4 (params_of LineRoundtrip.ex_lenc)
+    (init_regs (params_of LineRoundtrip.ex_lenc), 0%N) LineRoundtrip.ex_ops.
+Proof. exact LineRoundtrip.ex_script_enc_ok. Qed.
+
+(* 7d. program_roundtrip, FULL for version 5 (both formats, both byte orders, address sizes 1/2/4/8): the
+       directory and file tables may use any of the three string forms (inline, .debug_str, .debug_line_str:
+       one form per table, offsets into the given string tables), with the optional timestamp / size / MD5 /
+       LLVM-source columns selected by the file_has_* flags; uses C04's header_roundtrip_v5.
+       file5_entry is the entry a reader must see: name, directory index, timestamp, size, md5, source
+       (0 / zero digest / None for the columns that are switched off). *)
+Theorem program_roundtrip_v5 : forall dbg be e l p0 ops unit_enc ls ss d0 ds f0 fs,
+  p_insns p0 = [] -> p_prev p0 = wrow_initial e l -> p_in_seq p0 = false ->
+  p_enc p0 = e -> p_lenc p0 = l ->
+  e_version e = 5%N -> (5 <= e_version unit_enc)%N ->
+  LineRtBytes.enc_params_ok e l -> enc_ok l -> e_addr_size unit_enc = e_addr_size e ->
+  p_dirs p0 = d0 :: ds -> p_files p0 = f0 :: fs ->
+  Forall (LineRoundtrip5.dir5_ok (e_fmt64 e) ls ss (LineRoundtrip5.dform_of p0)) (p_dirs p0) ->
+  Forall (LineRoundtrip5.file5_ok p0 ls ss (LineRoundtrip5.fform_of p0) (source_form (p_files p0))) (p_files p0) ->
+  (LineSpec.len_n (p_dirs p0) < two64)%N -> (LineSpec.len_n (p_files p0) < two64)%N ->
+  script_ok e l (wrow_initial e l) false ops ->
+  LineRtScript.script_enc_ok (LineRoundtrip.hdr_of_asz (e_addr_size e)) (e_version e) (params_of l)
+                (init_regs (params_of l), 0%N) ops ->
+  (forall p' prog, apply_rops dbg p0 ops = Ok p' -> insns_write dbg be e (p_insns p') = Ok prog ->
+     (LineSpec.len_n (LineSpec.enc_after_len be (LineRoundtrip5.raw5 p' ls ss) prog)
+        < (if e_fmt64 e then two64 else 4294967280))%N) ->
+  exists p' bytes h rs,
+    apply_rops dbg p0 ops = Ok p' /\
+    write dbg be p' unit_enc ls ss = Ok (bytes, ls, ss) /\
+    LineRd.parse_header dbg be (e_addr_size e) bytes = Ok h /\
+    LineRd.rows_model dbg be h = (rs, LineRd.SEnd) /\
+    map LineRdRefine.rep rs =
+      map LineRtRows.r2s (fst (meaning (e_version e) (params_of l) (init_regs (params_of l), 0%N) ops)) /\
+    Forall (fun r => LineRd.r_tomb r = false) rs /\
+    LineSpec.h_dirs h = map (LineRoundtrip5.lstr_val5 ls ss) (p_dirs p0) /\
+    LineSpec.h_files h = map (LineRoundtrip5.file5_entry p0 ls ss) (p_files p0) /\
+    LineRtBytes.hdr_matches e l h.
+Proof. exact LineRoundtrip5.program_roundtrip_v5. Qed.
+
+(* hypotheses met by a DWARF64 / address-size-4 program with .debug_line_str names, all four optional
+   columns, two directories and two files with MD5 and embedded source *)
+Example program_roundtrip_hyps_v5 : LineRoundtrip5.ex5_prog = Ok LineRoundtrip5.ex5_p0 /\
+  p_insns LineRoundtrip5.ex5_p0 = [] /\
+  p_prev LineRoundtrip5.ex5_p0 = wrow_initial LineRoundtrip5.ex5_enc LineRoundtrip.ex_lenc /\
+  p_in_seq LineRoundtrip5.ex5_p0 = false /\
+  p_enc LineRoundtrip5.ex5_p0 = LineRoundtrip5.ex5_enc /\ p_lenc LineRoundtrip5.ex5_p0 = LineRoundtrip.ex_lenc /\
+  (exists d0 ds f0 fs, p_dirs LineRoundtrip5.ex5_p0 = d0 :: ds /\ p_files LineRoundtrip5.ex5_p0 = f0 :: fs) /\
+  length (p_dirs LineRoundtrip5.ex5_p0) = 2%nat /\ length (p_files LineRoundtrip5.ex5_p0) = 2%nat /\
+  Forall (LineRoundtrip5.dir5_ok (e_fmt64 LineRoundtrip5.ex5_enc) LineRoundtrip5.ex5_ls []
+            (LineRoundtrip5.dform_of LineRoundtrip5.ex5_p0)) (p_dirs LineRoundtrip5.ex5_p0) /\
+  Forall (LineRoundtrip5.file5_ok LineRoundtrip5.ex5_p0 LineRoundtrip5.ex5_ls []
+            (LineRoundtrip5.fform_of LineRoundtrip5.ex5_p0) (source_form (p_files LineRoundtrip5.ex5_p0)))
+         (p_files LineRoundtrip5.ex5_p0).
+Proof. exact LineRoundtrip5.ex5_prog_ok. Qed.
+
+(* WHAT REMAINS outside a theorem for the design's program_roundtrip:
+   (i) version 5 with file_has_source = true and a file WITHOUT source: LineProgram::write then adds an empty
+       string to a string table while writing (the theorems assume every file has a source in that case);
+   (ii) scripts that interleave add_file / add_directory / flag changes with rows: the tables are fixed before
+       the rows here (add_file_keeps_rows / add_directory_keeps_rows show the two parts are independent);
+   (iii) that the string-table offsets resolve to the strings (the .debug_str / .debug_line_str sections
+       themselves) and file/directory de-duplication;
+   (iv) Address::Symbol (relocatable) addresses.  These are covered by correspondence: stream c13.prog compares
+       all three sections byte for byte with gimli and reads them back with gimli::read. *)
 
 (* statement pins *)
 Check (advance_correct : forall (dbg : bool) (l : lenc) (ladv : Z) (oadv : N),
